@@ -185,6 +185,20 @@ def fixpoint(ctx, cfg, MAX):
 
 def check_path(res, ip, o, key, x, code, MAX):
     evs = o.state.ghost.get('events', [])
+    if ip.crate.fn(PA + '::push') is None:
+        # the appending helper was inlined: the append of (the sanitised) x itself is the event that takes the character
+        evs2 = []
+        in_consume = False
+        for e in evs:
+            if e[0] == 'consume':
+                in_consume = e[4] == x
+            elif e[0] == 'append-one' and in_consume:
+                evs2.append(('push', None, None, None, x))      # consume(x) appends (the sanitised) x
+                in_consume = False
+            elif e[0] != 'append-one':
+                in_consume = False
+            evs2.append(e)
+        evs = evs2
     consumed = 0
     flushed = False
     for (kind, sv, iv, cv, arg) in evs:
